@@ -76,8 +76,8 @@ func sortStrings(a []string) {
 
 // ---------- generators per token class
 
-var idStarts = []string{"a", "b", "x", "y", "Z", "$", "_", "é", "中", "Σ", "℮", "ᢅ", "π", `\u0061`, `\u{62}`, `\u{1F}`, "e", "n", "i", "f"}
-var idConts = []string{"a", "e", "n", "x", "0", "9", "$", "_", "é", "\u200c", "\u200d", "́", "‿", "٣", `\u0030`, `\u{5f}`, "中"}
+var idStarts = []string{"a", "b", "x", "y", "Z", "$", "_", "é", "中", "Σ", "℮", "ᢅ", "π", `\u0061`, `\u{62}`, `\u{1F}`, "e", "n", "i", "f", `\u{0062}`, `\u{000062}`, `\u{00000062}`, `\u{000000062}`, `\u{0000000000062}`, `\u{2F800}`, `\u{00002F800}`}
+var idConts = []string{"a", "e", "n", "x", "0", "9", "$", "_", "é", "\u200c", "\u200d", "́", "‿", "٣", `\u0030`, `\u{5f}`, "中", `\u{00005f}`, `\u{0000000030}`, `\u{000000000000061}`, "ั", "\u0e34"}
 
 func identifier(t *rapid.T) string {
 	for {
@@ -289,6 +289,20 @@ func (g *generator) emit(k tok) {
 	g.push(k)
 }
 
+// lineStart: only whitespace and comments stand between the last line terminator (or the start of the input) and here
+func (g *generator) lineStart() bool {
+	for i := len(g.out) - 1; i >= 0; i-- {
+		switch k := g.out[i]; {
+		case k.kind == "lt" || k.kind == "linecomment" || k.tt == js.CommentLineTerminatorToken:
+			return true
+		case k.kind == "ws" || k.kind == "comment":
+		default:
+			return false
+		}
+	}
+	return true
+}
+
 func (g *generator) push(k tok) {
 	if k.kind == "punct" && len(g.out) > 0 && g.out[len(g.out)-1].kind == "punct" && g.run != "" {
 		g.run += k.text
@@ -301,7 +315,7 @@ func (g *generator) push(k tok) {
 	g.out = append(g.out, k)
 }
 
-var plainKinds = []string{"ident", "ident", "keyword", "punct", "punct", "numeric", "string", "template", "comment", "linecomment", "ws", "lt", "private", "htmlopen", "htmlclose", "tmplsub", "braces", "parens"}
+var plainKinds = []string{"ident", "ident", "keyword", "punct", "punct", "numeric", "string", "template", "comment", "linecomment", "ws", "lt", "private", "htmlopen", "htmlclose", "arrowtail", "tmplsub", "braces", "parens"}
 
 // tokens emits n tokens; inside a template substitution only balanced brackets are produced
 func (g *generator) tokens(n int, inSub bool) {
@@ -346,6 +360,22 @@ func (g *generator) tokens(n int, inSub bool) {
 				g.push(tok{js.WhitespaceToken, " ", "ws"})
 			}
 			g.push(tok{js.CommentToken, "-->" + rapid.SampledFrom([]string{"", " x"}).Draw(t, "hbody"), "linecomment"})
+		case "arrowtail":
+			// "-->" that is NOT at the start of a line is the two punctuators -- and >, whatever whitespace or single-line
+			// comment stands in front of it
+			if g.lineStart() {
+				g.emit(tok{js.IdentifierToken, "x", "ident"})
+			}
+			if g.lineStart() {
+				continue
+			}
+			if last := g.out[len(g.out)-1]; last.kind == "ws" {
+				// whitespace is already there
+			} else if rapid.Bool().Draw(t, "wsbefore") || last.kind == "punct" {
+				g.push(tok{js.WhitespaceToken, rapid.SampledFrom([]string{" ", "\t", "\u00a0", "\ufeff", "\u2003", "\u00a0 ", " \u00a0", "\u3000"}).Draw(t, "ws"), "ws"})
+			}
+			g.push(tok{js.DecrToken, "--", "punct"})
+			g.push(tok{js.GtToken, ">", "punct"})
 		case "ws":
 			g.emit(tok{js.WhitespaceToken, rapid.SampledFrom([]string{" ", "\t", "\v\f", "  ", "\ufeff", "\u00a0", "\u2003", "\u3000 "}).Draw(t, "ws"), "ws"})
 		case "lt":
@@ -413,7 +443,7 @@ func lexAll(t *rapid.T, src string) []tok {
 }
 
 func TestProp_Tokens(t *testing.T) {
-	ev.Describe("tokens", "sequences of ECMAScript tokens: identifiers (ASCII, $ _, Unicode ID_Start/ID_Continue samples, ZWNJ/ZWJ, \\uXXXX and \\u{X}), all 54 keywords, all 57 punctuators/operators, numeric literals (decimal with ./exponent/separators, 0x 0b 0o in both cases, BigInt), strings (both quotes, escapes, line continuations incl. CRLF/U+2028), templates (no-substitution and head/middle/tail with nested templates to depth 4 and balanced braces/parentheses inside substitutions), comments (line, block with/without line terminators, <!-- and --> at line start), whitespace incl. NBSP/BOM/Zs, line terminators, private identifiers; separated by whitespace/comment/line terminator wherever a conservative maximal-munch relation says two tokens could merge, otherwise by nothing or a drawn separator; oracle: exact (type, text) sequence incl. separators, types from a table written from ECMA-262; non-trivial = >= 4 tokens and >= 1 unseparated adjacency")
+	ev.Describe("tokens", "sequences of ECMAScript tokens: identifiers (ASCII, $ _, Unicode ID_Start/ID_Continue samples, ZWNJ/ZWJ, \\uXXXX and \\u{X} with up to 15 hex digits), all 54 keywords, all 57 punctuators/operators, numeric literals (decimal with ./exponent/separators, 0x 0b 0o in both cases, BigInt), strings (both quotes, escapes, line continuations incl. CRLF/U+2028), templates (no-substitution and head/middle/tail with nested templates to depth 4 and balanced braces/parentheses inside substitutions), comments (line, block with/without line terminators, <!-- and --> at line start, --> in mid-line behind any whitespace as the punctuators -- >), whitespace incl. NBSP/BOM/Zs, line terminators, private identifiers; separated by whitespace/comment/line terminator wherever a conservative maximal-munch relation says two tokens could merge, otherwise by nothing or a drawn separator; oracle: exact (type, text) sequence incl. separators, types from a table written from ECMA-262; non-trivial = >= 4 tokens and >= 1 unseparated adjacency")
 	ev.Check(t, 30000, func(t *rapid.T) {
 		g := &generator{t: t}
 		g.tokens(rapid.IntRange(1, 10).Draw(t, "ntok"), false)
